@@ -80,6 +80,7 @@ let parse_cop (tok : string) : cop =
   | 'W' -> CWrite
   | 'H' -> CShut
   | 'G' -> CRead
+  | 't' -> CTryWrite
   | 'C' -> CClose
   | 'R' -> CRun
   | _ -> failwith ("bad connect op " ^ tok)
@@ -105,6 +106,7 @@ let con_case (line : string) : string =
         | CUsable _ -> ()
         | CWcb -> add "v"
         | CScb -> add "y"
+        | CTry c -> add ("t" ^ string_of_z c)
         | CClosed -> add "x"
         | CReg n -> add (Printf.sprintf "q%d" (int_of_nat n))) evs;
       (* the harness then closes every handle and lets the loop finish (callbacks do nothing):
